@@ -645,10 +645,12 @@ func (c *Ctx) errExitBlocks(fi *FuncInfo) map[*ssa.BasicBlock]string {
 		if !isErrorType(last.Type()) {
 			continue
 		}
-		if phi, ok := last.(*ssa.Phi); ok && phi.Block() == b {
-			for i, e := range phi.Edges {
-				if g := errGlobalName(e); g != "" {
-					out[b.Preds[i]] = g
+		if _, ok := last.(*ssa.Phi); ok {
+			// the error result is merged (named result set before a jump to a common exit, or a flag-style
+			// "err = E; break" tested after the loop): the exit is the block from which E enters the φ web
+			for _, lf := range phiLeaves(last) {
+				if g := errGlobalName(lf.V); g != "" && lf.Pred != nil {
+					out[lf.Pred] = g
 				}
 			}
 			continue
@@ -656,6 +658,24 @@ func (c *Ctx) errExitBlocks(fi *FuncInfo) map[*ssa.BasicBlock]string {
 		if g := errGlobalName(last); g != "" {
 			out[b] = g
 		}
+	}
+	return out
+}
+
+// waysInto: the condition lists (nearest first) under which block b is entered: one list for a block
+// with a single predecessor (its dominating conditions), one per incoming edge otherwise.
+func (fi *FuncInfo) waysInto(b *ssa.BasicBlock) [][]Cond {
+	if len(b.Preds) <= 1 {
+		return [][]Cond{fi.condsAt(b)}
+	}
+	var out [][]Cond
+	for _, p := range b.Preds {
+		ec := fi.edgeConds(p, b)
+		// the branch condition of the edge itself is the nearest one
+		if n := len(ec); n > len(fi.condsAt(p)) {
+			ec = append([]Cond{ec[n-1]}, ec[:n-1]...)
+		}
+		out = append(out, ec)
 	}
 	return out
 }
@@ -1182,17 +1202,7 @@ func (c *Ctx) isCountingLoop(fi *FuncInfo, l *Loop) bool {
 }
 
 func (c *Ctx) loopInvariantLoad(fi *FuncInfo, l *Loop, v ssa.Value) bool {
-	// len(x) or load whose operands are defined outside the loop and not written in it
-	switch x := v.(type) {
-	case *ssa.Call:
-		if bi, ok := x.Call.Value.(*ssa.Builtin); ok && bi.Name() == "len" {
-			if in, ok := x.Call.Args[0].(ssa.Instruction); ok && l.Blocks[in.Block()] {
-				return false
-			}
-			return true
-		}
-	}
-	return false
+	return c.loopInvariant(fi, l, v)
 }
 
 func (c *Ctx) checkDoubling(fi *FuncInfo, d dblLoop, key string, pos token.Pos) {
@@ -1377,22 +1387,28 @@ func (c *Ctx) classifyErrors(fn *ssa.Function) map[string]string {
 	fi := c.info(fn)
 	out := map[string]string{}
 	for b, g := range c.errExitBlocks(fi) {
-		class := "capacity"
-		conds := fi.condsAt(b)
-		// the deciding guard(s): those not shared with every non-error path = nearest two dominating conditions
-		if len(conds) > 2 {
-			conds = conds[:2]
-		}
-		for _, cd := range conds {
-			cd = unNot(cd)
-			bo, ok := cd.V.(*ssa.BinOp)
-			if !ok {
-				continue
+		// the deciding guard(s) = the nearest two conditions on each way into the exit block; a block
+		// entered from several branches (a || b) is validity-class only if every way in is
+		class := "validity"
+		for _, conds := range fi.waysInto(b) {
+			if len(conds) > 2 {
+				conds = conds[:2]
 			}
-			for _, v := range []ssa.Value{bo.X, bo.Y} {
-				if mentionsValidity(v, 0) {
-					class = "validity"
+			val := false
+			for _, cd := range conds {
+				cd = unNot(cd)
+				bo, ok := cd.V.(*ssa.BinOp)
+				if !ok {
+					continue
 				}
+				for _, v := range []ssa.Value{bo.X, bo.Y} {
+					if mentionsValidity(v, 0) {
+						val = true
+					}
+				}
+			}
+			if !val {
+				class = "capacity"
 			}
 		}
 		if prev, ok := out[g]; ok && prev != class {
@@ -1898,72 +1914,107 @@ func ruleCountsAtEnd(c *Ctx) {
 	}
 	fi := c.info(fn)
 	name := fnName(fn)
-	var ret *ssa.Return
-	nret := 0
+	var rets []*ssa.Return
 	for _, b := range fn.Blocks {
-		if r, ok := b.Instrs[len(b.Instrs)-1].(*ssa.Return); ok {
-			ret = r
-			nret++
+		if r, ok := b.Instrs[len(b.Instrs)-1].(*ssa.Return); ok && len(r.Results) == 4 {
+			rets = append(rets, r)
 		}
 	}
-	if ret == nil || nret != 1 || len(ret.Results) != 4 {
-		c.fail(name+":merge", fn.Pos(), "expected a single return (n, k, l, err) after the merge of all exits")
+	if len(rets) == 0 {
+		c.fail(name+":merge", fn.Pos(), "no return (n, k, l, err) found")
 		return
 	}
-	// k: per error edge inside the sequence loop = loop index; after the loop = len(Sequences)
-	kphi, ok := ret.Results[1].(*ssa.Phi)
+	// the loop over the sequences: header condition idx < len(…Sequences)
 	var seqLoop *Loop
+	var idx ssa.Value
 	for _, l := range fi.loops {
-		if c.isRangeLoop(fi, l) {
-			seqLoop = l
+		iff, ok := l.Header.Instrs[len(l.Header.Instrs)-1].(*ssa.If)
+		if !ok {
+			continue
+		}
+		bo, ok := iff.Cond.(*ssa.BinOp)
+		if !ok || bo.Op != token.LSS {
+			continue
+		}
+		for a := range fi.lin(bo.Y).t {
+			if strings.HasPrefix(a, "len(") && strings.Contains(a, "Sequences") && len(fi.lin(bo.Y).t) == 1 {
+				seqLoop, idx = l, bo.X
+			}
 		}
 	}
-	if !ok || seqLoop == nil {
-		c.fail(name+":k", ret.Pos(), "k is not merged from the exits / no range loop over the sequences")
-	} else {
-		iff := seqLoop.Header.Instrs[len(seqLoop.Header.Instrs)-1].(*ssa.If)
-		idx := iff.Cond.(*ssa.BinOp).X
-		okK := true
-		for i, e := range kphi.Edges {
-			pred := kphi.Block().Preds[i]
-			body := seqLoop.Header.Succs[0]
-			if pred == body || body.Dominates(pred) {
-				if e != idx {
+	isSeqLen := func(l Lin) bool {
+		for a := range l.t {
+			if strings.HasPrefix(a, "len(") && strings.Contains(a, "Sequences") && len(l.t) == 1 && l.c == 0 && l.t[a] == 1 {
+				return true
+			}
+		}
+		return false
+	}
+	okK, okL := seqLoop != nil, true
+	detailL := ""
+	for _, ret := range rets {
+		if seqLoop == nil {
+			break
+		}
+		// k: on every feasible way into the returned value — decided inside the sequence loop: the
+		// current index; otherwise len(Sequences). The ways are the paths through the merge φs of k
+		// (sibling φs, nil-ness of err included, take the same edges; contradictory paths are dropped).
+		hdr := seqLoop.Header
+		body := hdr.Succs[0]
+		bound := fi.lin(hdr.Instrs[len(hdr.Instrs)-1].(*ssa.If).Cond.(*ssa.BinOp).Y)
+		for _, cs := range fi.expandCases(fi.lin(ret.Results[1]), nil, ret.Block()) {
+			if fi.proveLE0(linConst(1), cs.Conds, cs.Eqs, map[string]bool{}, 1) {
+				continue // infeasible combination of edges
+			}
+			at := ret.Block()
+			if n := len(cs.Preds); n > 0 {
+				at = cs.Preds[n-1]
+			}
+			inBody := at == body || body.Dominates(at)
+			v := cs.L
+			eq := func(x, y Lin, conds []Cond) bool {
+				return x.eq(y) || (fi.proveLE0(x.sub(y), conds, cs.Eqs, map[string]bool{}, 0) && fi.proveLE0(y.sub(x), conds, cs.Eqs, map[string]bool{}, 0))
+			}
+			switch {
+			case inBody:
+				if !eq(v, fi.lin(idx), cs.Conds) {
 					okK = false
 				}
-			} else {
-				// len(Sequences)
-				l := fi.lin(e)
-				good := false
-				for a := range l.t {
-					if strings.HasPrefix(a, "len(") && strings.Contains(a, "Sequences") && len(l.t) == 1 && l.c == 0 {
-						good = true
-					}
+			case isSeqLen(v):
+			case v.eq(fi.lin(idx)):
+				// the index variable itself is returned (`for k = 0; k < len; k++` with breaks): on the
+				// regular exit it must equal len(Sequences) — exit condition plus counting invariant
+				if !eq(v, bound, append(append([]Cond{}, cs.Conds...), fi.edgeConds(hdr, hdr.Succs[1])...)) {
+					okK = false
 				}
-				if !good {
+			default:
+				if !eq(v, bound, cs.Conds) {
 					okK = false
 				}
 			}
 		}
-		c.check(okK, name+":k", ret.Pos(), "k = index of the failing sequence on loop exits, len(Sequences) after the loop",
-			"k is not the index of the failing sequence / len(Sequences) on every exit")
-	}
-	// l = len(Literals at entry) − len(Literals at exit)
-	ll := fi.lin(ret.Results[2])
-	okL := false
-	var entryLit, exitLit string
-	for a, co := range ll.t {
-		if strings.HasPrefix(a, "len(") && strings.Contains(a, "Literals") {
-			if co == 1 && !strings.Contains(a, "@") {
-				entryLit = a
-			}
-			if co == -1 {
-				exitLit = a
+		// l = len(Literals at entry) − len(Literals at exit)
+		ll := fi.lin(ret.Results[2])
+		var entryLit, exitLit string
+		for a, co := range ll.t {
+			if strings.HasPrefix(a, "len(") && strings.Contains(a, "Literals") {
+				if co == 1 && !strings.Contains(a, "@") {
+					entryLit = a
+				}
+				if co == -1 {
+					exitLit = a
+				}
 			}
 		}
+		if !(entryLit != "" && exitLit != "" && len(ll.t) == 2 && ll.c == 0) {
+			okL = false
+			detailL = ll.String()
+		}
 	}
-	okL = entryLit != "" && exitLit != "" && len(ll.t) == 2 && ll.c == 0
-	c.check(okL, name+":l", ret.Pos(), "l = len(Literals at entry) − len(Literals remaining)", "l is not the difference between the literal bytes offered and the literal bytes remaining ("+ll.String()+")")
+	ret := rets[len(rets)-1]
+	c.check(okK, name+":k", ret.Pos(), "k = index of the failing sequence on exits from the sequence loop, len(Sequences) after the loop",
+		"k is not the index of the failing sequence / len(Sequences) on every exit (or no loop over the sequences was found)")
+	c.check(okL, name+":l", ret.Pos(), "l = len(Literals at entry) − len(Literals remaining)", "l is not the difference between the literal bytes offered and the literal bytes remaining ("+detailL+")")
 	// the remaining-literals header advances by exactly what is appended
 	n := 0
 	for _, b := range fn.Blocks {
